@@ -331,10 +331,14 @@ def get_requires_parking(element: IQubitID, edge_ids: List[IEdgeID], connectivit
     frequency_group: FrequencyGroupIdentifier = connectivity.get_frequency_group_identifier(element=element)
     # Parking is required if any neighboring qubit from a higher frequency group is part of an edge.
     neighboring_qubit_ids: List[IQubitID] = connectivity.get_neighbors(qubit=element, order=1)
-    involved_qubits: List[IQubitID] = [qubit_id for edge_id in edge_ids for qubit_id in edge_id.qubit_ids]
-    involved_edges: List[IEdgeID] = [edge_id for edge_id in edge_ids for _ in edge_id.qubit_ids]
-    involved_neighbors: List[IQubitID] = [qubit_id for qubit_id in neighboring_qubit_ids if qubit_id in involved_qubits]
-    involved_neighbor_edges: List[IEdgeID] = [involved_edges[involved_qubits.index(qubit_id)] for qubit_id in neighboring_qubit_ids if qubit_id in involved_qubits]
+    # Pair every neighboring qubit with each of the edges it takes part in (a qubit may be part of several edges)
+    involved_neighbors: List[IQubitID] = []
+    involved_neighbor_edges: List[IEdgeID] = []
+    for edge_id in edge_ids:
+        for qubit_id in edge_id.qubit_ids:
+            if qubit_id in neighboring_qubit_ids:
+                involved_neighbors.append(qubit_id)
+                involved_neighbor_edges.append(edge_id)
     involved_frequency_groups: List[FrequencyGroupIdentifier] = [connectivity.get_frequency_group_identifier(element=qubit_id) for qubit_id in involved_neighbors]
     return any([
         neighbor_frequency_group.is_higher_than(frequency_group) and on_moving_side(neighbor_qubit_id, neighbor_edge_id, connectivity)
